@@ -102,6 +102,36 @@ def epoch_chain_stub(ip, j, present, etype):
     return PyObj(f"chain{j}", epoch=cfg, get=PyFn(lambda ip_: ip_.call(Option, [val if present else None], {}), "get")), val
 
 
+@unit("C08.manager_advance_and_append", "C08", [f"{CH}::EpochChainManager.__init__", f"{CH}::EpochChainManager.advance_epoch", f"{CH}::EpochChainManager.append", f"{CH}::EpochChainManager.get_epochs",
+                                                f"{CH}::EpochChainManager.get_current_chain", f"{CH}::EpochChainManager.get_specific_chain", f"{CH}::ListEpochChain.__init__"],
+      summaries=[f"{CH}::ListEpochChain.append (C08.epoch_chain_append)"])
+def u_manager_advance(ip):
+    """a manager built by the real constructor: advance_epoch(cfg) opens a NEW epoch chain for exactly that configuration carrying the
+    manager's thinning flag, as the last chain; append() stores into the current (last) chain only; epochs / chains are reported in the
+    order in which they were opened - also when two configurations are equal."""
+    c = ip.ctx
+    install_chain_models(ip)
+    EC = ip.repo(f"{EPOCH}::EpochConfig")
+    appended = []
+    ip.summaries[f"{CH}::ListEpochChain.append"] = lambda ip_, args, kwargs: appended.append((args[0], args[1]))
+    for flag in (True, False):
+        mgr = ip.call(ip.repo(f"{CH}::EpochChainManager"), [], {"apply_thinning": flag})
+        th = c.fresh("th", Int)
+        cfgs = [ip.call(EC, [3, 6, th, None], {}), ip.call(EC, [4, 6, 2, None], {}), ip.call(EC, [4, 6, 2, None], {})]  # the last two are EQUAL by value
+        del appended[:]
+        for j, cfg in enumerate(cfgs):
+            ip.call(method(ip, mgr, "advance_epoch"), [cfg], {})
+            chunk = PyObj(f"chunk{j}")
+            ip.call(method(ip, mgr, "append"), [chunk], {})
+            cur = ip.call(method(ip, mgr, "get_current_chain"), [], {})
+            c.oblige(f"current_chain_is_for_this_epoch.flag_{flag}.{j}", ip.getattr(cur, "epoch") is cfg and ip.truth(cur.f["_apply_thinning"]) is flag)
+            c.oblige(f"append_goes_to_the_current_chain_only.flag_{flag}.{j}", len(appended) == j + 1 and appended[j][0] is cur and appended[j][1] is chunk)
+        eps = ip.call(method(ip, mgr, "get_epochs"), [], {})
+        c.oblige(f"epochs_reported_in_opening_order.flag_{flag}", len(eps) == 3 and all(eps[j] is cfgs[j] for j in range(3)))
+        chains = [ip.call(method(ip, mgr, "get_specific_chain"), [j], {}) for j in range(3)]
+        c.oblige(f"one_distinct_chain_per_epoch.flag_{flag}", len({id(x) for x in chains}) == 3 and all(ip.getattr(chains[j], "epoch") is cfgs[j] for j in range(3)))
+
+
 def combine_unit(n):
     @unit(f"C08.combine.n{n}", "C08", [f"{CH}::EpochChainManager.combine_all", f"{CH}::EpochChainManager.combine_filtered", f"{CH}::EpochChainManager.combine",
                                        f"{ENG}::SamplingResults.get_samples", f"{ENG}::SamplingResults.get_posterior_samples", f"{ENG}::SamplingResults.get_posterior_transition_infos"],
@@ -262,3 +292,10 @@ def u_get_results(ip):
 from contracts.c07 import engine_init_unit  # noqa: E402
 
 engine_init_unit("C08.engine_init", "C08")
+
+
+# the builder and the engine constructor end to end through the public API (same harness as C10.build_end_to_end)
+from contracts.c10 import build_whole_unit  # noqa: E402
+
+build_whole_unit("C08.build_end_to_end", "C08", "A")
+build_whole_unit("C08.build_end_to_end.variant_b", "C08", "B")
